@@ -459,9 +459,11 @@ Theorem C13_score_median_additive_refuted :
 Proof. exact score_median_not_additive. Qed.
 
 Example C13_score_sum_example :
-  Cardinal.score_to_simple (cfg_of Cardinal.FSum) [([(1%positive, 3); (2%positive, 0)], 2%Z); ([(2%positive, 5)], 3%Z)]
-  = inl [(1%positive, 6); (2%positive, 15)].
-Proof. vm_compute. reflexivity. Qed.
+  let votes := [([(1%positive, 3); (2%positive, 0)], 2%Z); ([(2%positive, 5)], 3%Z)] in
+  plain_cfg (cfg_of Cardinal.FSum) = true /\ counts_nonneg votes = true /\
+  Cardinal.score_to_simple (cfg_of Cardinal.FSum) votes = inl [(1%positive, 6); (2%positive, 15)] /\
+  psum (fun s => s) 2%positive votes == 15.
+Proof. vm_compute. repeat split; reflexivity. Qed.
 
 (* ---- InvalidVoteEliminator (Model/Validate.v eliminate): a filter.  Each ballot is judged on its own; the union converts to the union;
    what passes is the sub-profile of the accepted ballots with their counts: the weight of the valid ballots is conserved *)
